@@ -60,6 +60,11 @@ for ent in ('SIS_homogeneous_pairwise_from_graph', 'SIR_homogeneous_pairwise_fro
     c06(ent, 'accept:EoNError', ['II0=1'],
         "%s rejects a consistent state without I-I (and, SIR, without R) pairs by floating-point rounding: SS0+2*SI0 > n*N with n = sum(k*Pk[k]) a rounded float, e.g. 14 > 13.999999999999998 (analytic.py:2032/2122)" % ent)
 
+c06('EBCM_discrete_from_graph', 'nan', ['iso=1/p1=1'],
+    "EBCM_discrete_from_graph returns NaN for a graph with isolated nodes once theta reaches 0 (p=1): the degree-0 term k*Pk*Sk0*x**(k-1) is 0*inf (analytic.py:5097)")
+c06('Attack_rate_cts_time_from_graph', 'accept:ZeroDivisionError', ['iso=1/gamma0=1'],
+    "Attack_rate_cts_time_from_graph raises ZeroDivisionError for a graph with isolated nodes and gamma=0: psihatPrime evaluates k*Pk*Sk0*x**(k-1) at x=omega=0 for k=0 (analytic.py:4852)")
+
 extra = os.path.join(V, 'tools', 'ic_findings_c14.json')
 if os.path.exists(extra):
     F += json.load(open(extra))
